@@ -32,6 +32,17 @@ def _lambda_pair(expr):
 
 
 def run(ck: Checker):
+    ck.rule('C20.FOLD', 'top_sort, dfs, bfs (every start set, both directions, with and without topological reporting of unvisited gates, hooks that read the live state mapping) and the cycle check folded on instances of the repository\'s Circuit class over a family of model circuits (stored operands-first and users-first, plus cyclic states) and compared with their definitions')
+    from .. import eval_fold
+    eval_fold.fold_traversals(ck, 'C20.FOLD')
+    ck.floor('C20.FOLD', 4)
+    # the structural rules below state the same clauses for circuits of any size, but know only one way of writing the
+    # traversals: where they do not recognise the code, the clause is left to the fold above
+    with ck.soft('C20.FOLD'):
+        _structural(ck)
+
+
+def _structural(ck: Checker):
     repo = ck.repo
     m = repo.mod(CIRCUIT)
     ck.rule('C20.STATE', 'the traversal loop handles every TraverseState member; enter hook before ENTERED and one yield per gate in the UNVISITED branch; exit hook only in the ENTERED branch followed by VISITED and pop; BFS marks VISITED and pops at once; both modes handled')
